@@ -299,7 +299,8 @@ _ADDED4 = {
     "C07": " (PM1) the Python runtime mixins that precede the generated abstract base in the bases of generated classes define no public method that would shadow the state "
            "machine's close()/__exit__/step methods.",
     "C08": " (AR1) some validation pass reports an error for an array whose `dimensions` is present and empty (the *Array handler is evaluated for that abstract array, "
-           "helpers followed); (Z1) no shape predicate of TypeCases is tested where an excluding predicate of the same value is known to hold.",
+           "helpers followed); (Z1) no shape predicate of TypeCases is tested where an excluding predicate of the same value is known to hold; (CN1) a generator function or closure that "
+           "holds the context namespace passes its own, unchanged, to every same-package callee parameter that carries it (slots inferred by flow from the parameters named contextNamespace).",
     "C09": " (E7) an ErrorSink/WarningSink is never re-assigned and its slice only appended to; (X1c) see C06; (X12) the *BinaryExpression case of resolveComputedFields, "
            "evaluated over operand kinds x common-type existence, reports an error whenever an operand is not a number.",
     "C10": " (E7) see C09.",
